@@ -1,6 +1,8 @@
 import NfpmModel.Spec.ScriptSpec
 import NfpmModel.Generated.G2Scripts
 import NfpmModel.Lemmas.DebControlLemmas
+import NfpmModel.Lemmas.ApkControlLemmas
+import NfpmModel.Lemmas.PackageLemmas
 /-
   C09  Maintainer scripts land verbatim in the slot their lifecycle event runs.
 
@@ -202,6 +204,24 @@ theorem ipk_scripts_in_control_archive (mtime : Nat) (control conffiles : Bytes)
       ∧ ∀ s ∈ DebCtl.ipkSlots, DebCtl.lookup s.1 ms = (scripts s.1).map (DebCtl.file s.1 s.2 mtime) := by
   obtain ⟨l1, l2, l3⟩ := DebCtl.lookup_ipkMembers mtime control conffiles scripts
   exact ⟨_, Tar.read_archive _ (DebCtl.ipkMembers_ok mtime control conffiles scripts hm hc hf hs), l1, l2, l3⟩
+
+/-- **apk: the scripts inside the control segment**: the members apk.createBuilderControl writes are .PKGINFO and, for
+    each of the six slots, a member under the slot's name iff that script is configured – then with the configured
+    bytes, mode 0755, the script file's mtime and the record APK-TOOLS.checksum.SHA1 = hash of exactly those bytes; and
+    the apk file built from them (signature segment, control segment, data segment, each cut or complete as apk wants
+    them) is ONE tar stream from which an independent reader recovers these very members between the signature's and the
+    data's (for every hash function; `PaxOK`: the members are expressible in archive/tar's PAX rendering) -/
+theorem apk_scripts_in_control_segment (sha1hex : Bytes → Bytes) (pkginfo : Bytes) (scripts : Bytes → Option (Bytes × Nat))
+    (sig : Option (List Tar.PMember)) (data : List Tar.PMember)
+    (hraw : ∀ r ∈ ((sig.getD []) ++ ApkCtl.members sha1hex pkginfo scripts ++ data).flatMap Tar.expand, Tar.MemberOK r)
+    (hlog : ∀ m ∈ (sig.getD []) ++ ApkCtl.members sha1hex pkginfo scripts ++ data, Tar.PMemberOK m) :
+    Tar.paxRead (Pkg.apkStream sig (ApkCtl.members sha1hex pkginfo scripts) data)
+        = some ((sig.getD []) ++ ApkCtl.members sha1hex pkginfo scripts ++ data)
+      ∧ ApkCtl.lookup b!".PKGINFO" (ApkCtl.members sha1hex pkginfo scripts) = some (ApkCtl.pkginfoMember pkginfo)
+      ∧ ∀ n ∈ ApkCtl.slots, ApkCtl.lookup n (ApkCtl.members sha1hex pkginfo scripts)
+          = (scripts n).map (fun p => ApkCtl.scriptMember sha1hex n p.1 p.2) := by
+  obtain ⟨l1, l2⟩ := ApkCtl.lookup_members sha1hex pkginfo scripts
+  exact ⟨Pkg.apkStream_reads sig _ data hraw hlog, l1, l2⟩
 
 /-- the slot names of the byte-level archive are the documented deb slots of the wiring table (C09's `debSlots`) -/
 example : DebCtl.scriptSlots.map (·.1) = [b!"config", b!"postinst", b!"postrm", b!"preinst", b!"prerm", b!"rules", b!"templates"] := by
